@@ -46,7 +46,9 @@ class PObjView:
 def spec_value(ip, v):
     if isinstance(v, Sym):
         return v.t
-    if isinstance(v, PList) and v.ref is not None:
+    if isinstance(v, PList) and not v.frozen:
+        if v.ref is None:
+            ip.c.promote(v)     # specs talk about heap lists; promotion only changes the representation
         return v.ref
     if isinstance(v, PObj):
         return PObjView(ip, v)
@@ -138,6 +140,7 @@ def for_loop(ip, st, key=None):
     ik = iter_kind(ip, it)
     if ik[0] in ("conc", "live"):
         i = 0
+        mf = ip.w.merge_factories.get((fr.qual, fr.srcinfo.loop_ord.get(id(st)))) if key is None else None
         while True:
             items = ik[1] if ik[0] == "conc" else ik[1].items
             if ik[0] == "live" and items is None:
@@ -145,6 +148,10 @@ def for_loop(ip, st, key=None):
             if i >= len(items):
                 break
             ip.assign(st.target, items[i])
+            if mf is not None:
+                r = mf(ip, i)
+                if r is not None:
+                    merge_point(ip, (fr.qual, fr.srcinfo.loop_ord[id(st)], r[0]), r[1])
             i += 1
             if i > MAX_UNROLL:
                 raise Unsupported("concrete loop too long")
@@ -214,12 +221,39 @@ def for_loop(ip, st, key=None):
     cut_loop(ip, key, assigned, guard, bind, st.body, extra={"_iter": ik})
 
 
+def merge_point(ip, key, mc):
+    c = ip.c
+    from .calls import _clauses
+    name = f"{key[0]}/merge{key[1]}[{key[2]}]"
+
+    def clauses():
+        out = list(_clauses(mc.inv(SV(c.heap0), c.sv(), ip), "inv"))
+        changed = [a for a in c.heap.cur if not z3.eq(c.heap.cur[a], c.heap0.get(a))]
+        out.extend(c.task.auto_frame(c, changed))       # objects outside the function's modifies set are unchanged
+        out.append(("top", c.heap.top >= c.heap0.top))
+        return out
+
+    for nm, f in clauses():
+        c.prove(f"{name}/{nm}", f, kind="merge")
+    prefix = tuple(c.log[: c.pos])
+    owner = c.task.merge_owner.get(key)
+    if owner is None:
+        c.task.merge_owner[key] = prefix
+    elif owner != prefix:
+        raise PathEnd()
+    c.epoch += 1
+    mc.havoc(ip)
+    c.reset_to_base()
+    for nm, f in clauses():
+        c.assume(f)
+
+
 def while_loop(ip, st):
     if st.orelse:
         raise Unsupported("while/else")
     fr = ip.frames[-1]
     key = (fr.qual, fr.srcinfo.loop_ord[id(st)])
-    lc = ip.w.loop_contract(key)
+    key, lc = ip.w.loop_contract(key, ip)
     if lc is None:
         n = 0
         while ip.truth(ip.ev(st.test), "while"):
@@ -238,15 +272,22 @@ def while_loop(ip, st):
     def guard(k):
         return ip.truth(ip.ev(st.test), "while")
 
-    cut_loop(ip, key, assigned, guard, lambda k: None, st.body)
+    cut_loop(ip, key, assigned, guard, lambda k: None, st.body, lc=lc)
 
 
-def cut_loop(ip, key, assigned, guard, bind, body, extra=None):
+def cut_loop(ip, key, assigned, guard, bind, body, extra=None, lc=None):
     c = ip.c
     fr = ip.frames[-1]
-    lc = ip.w.loop_contract(key)
+    if lc is None:
+        key, lc = ip.w.loop_contract(key, ip)
     learned = c.task.learned.setdefault(key, {"arrays": set(), "fields": set()})
-    name = f"{key[0]}/loop{key[1]}"
+    if lc is not None:
+        learned["arrays"].update(lc.arrays)
+        for (vn, fld) in lc.fields:
+            o = fr.locals.get(vn)
+            if isinstance(o, PObj):
+                learned["fields"].add((o.serial, fld))
+    name = f"{key[0]}/loop{key[1]}" + (f"[{key[2]}]" if len(key) > 2 else "")
 
     ghost = {}
 
@@ -308,7 +349,10 @@ def cut_loop(ip, key, assigned, guard, bind, body, extra=None):
     if lc is not None and lc.axioms is not None:
         from .calls import _clauses
         for nm, f in _clauses(lc.axioms(SV(c.heap0), c.sv(), view(k)), "axiom"):
-            c.assume(f)
+            if nm.startswith("prove:"):
+                c.prove(f"{name}/lemma:{nm[6:]}", f, kind="lemma")
+            else:
+                c.assume(f)
     dec0 = None
     # 3. one arbitrary iteration, or exit
     c.loop_stack.append(lp)
